@@ -235,6 +235,40 @@ def b_native(B):
         B.case(("lf_np21", ns), not bad, detail=bad[:4], inputs={"ns": ns, "version": "NP2.1"})
 
 
+    # a forced re-extraction in a folder that already holds an (uncompressed) LF file of an earlier run, and a second run of the same converter object
+    for version in ("NP2.1", "NP2.4"):
+        d = tempfile.mkdtemp(prefix="c12_")
+        try:
+            ns = lens[0]
+            fixm = None if version == "NP2.4" else os.path.join(os.path.dirname(C03.FIXM), "..", "NP21_meta", os.path.basename(C03.FIXM))
+            ap, D = C03._mk_np24(d, 0.5, 8192, ns, rng=rng, fixm=fixm)
+            bad = []
+            conv = neuropixel.NP2Converter(ap, post_check=False, compress=False)
+            for k_, wdw in enumerate((6000, 3000, 4008)):
+                if k_ == 2:
+                    conv.sr.close()
+                    conv = neuropixel.NP2Converter(ap, post_check=False, compress=False)      # a fresh converter over the outputs of the earlier ones
+                conv.init_params(nwindow=wdw)
+                st = conv.process(overwrite=(k_ > 0))
+                for sh, inf in conv.shank_info.items():
+                    lf = np.fromfile(inf["lf_file"], dtype=np.int16)
+                    nchn = len(inf["chns"])
+                    if st != 1 or lf.size != -(-ns // 12) * nchn:
+                        bad.append(("run", k_, "status", st, sh, "lf samples", lf.size / nchn, "expected", -(-ns // 12)))
+                    else:
+                        sr = spikeglx.Reader(inf["lf_file"], sort=False)
+                        if sr.shape != (-(-ns // 12), nchn) or not np.array_equal(lf.reshape(-1, nchn)[:, -1], D[::12, -1]):
+                            bad.append(("run", k_, sh, "reader shape / sync", sr.shape))
+                        sr.close()
+            conv.sr.close()
+            B.case(("forced_rerun_over_existing_lf", version), not bad, detail=bad[:4], inputs={"kind": "forced_rerun", "version": version})
+        except Exception as e:
+            B.case(("forced_rerun_over_existing_lf", version), False, detail=repr(e)[:200], inputs={"kind": "forced_rerun", "version": version})
+        finally:
+            shutil.rmtree(d, ignore_errors=True)
+
+
 # ----------------------------------------------------------------------------- contracts of dependencies this property rests on (re-checked here)
 from pyvc.api import depends  # noqa: E402
 depends(PROPERTY, "C17", ["firstlast"])      # generator contract + nwin == count, used by the window-loop harnesses
+depends(PROPERTY, "C04", ["prepare_files_NP21", "prepare_files_NP24_forced"])      # the LF output starts empty: ceil(n/12) samples also when an earlier lf.bin exists
